@@ -218,9 +218,15 @@ func (encryptor *QueryDataEncryptor) encryptUpdateQuery(ctx context.Context, upd
 func (encryptor *QueryDataEncryptor) OnColumn(ctx context.Context, data []byte) (context.Context, []byte, error) {
 	columnInfo, ok := decryptor.ColumnInfoFromContext(ctx)
 	if ok {
+		// settings of the statement whose result is being processed: the session holds them for the last simple query
+		// or for the prepared statement being executed (which may differ from the last analysed statement)
+		querySelectSettings := encryptor.querySelectSettings
+		if clientSession := decryptor.ClientSessionFromContext(ctx); clientSession != nil && clientSession.HasData(base.QueryDataItemKey) {
+			querySelectSettings = base.QueryDataItemsFromClientSession(clientSession)
+		}
 		// return context with encryption setting
-		if columnInfo.Index() < len(encryptor.querySelectSettings) {
-			selectSetting := encryptor.querySelectSettings[columnInfo.Index()]
+		if columnInfo.Index() < len(querySelectSettings) {
+			selectSetting := querySelectSettings[columnInfo.Index()]
 			if selectSetting != nil {
 
 				logging.GetLoggerFromContext(ctx).WithField("column_index", columnInfo.Index()).WithField("column", selectSetting.ColumnName()).Debugln("Set encryption setting")
